@@ -12,6 +12,7 @@ INVARIANT TypeOK
 INVARIANT DistinctNamesDistinctVars
 INVARIANT SameVarAllSpellings
 INVARIANT LocalsShadow
+INVARIANT QualifiedIgnoresLocals
 INVARIANT PrivateUnreachable
 INVARIANT DefOnlyModesAgree
 INVARIANT RefinesNoDev
